@@ -63,6 +63,19 @@ End C08.
 Example C08_ex_replayed : verdict (run [fA; fB_replayed] L2) = Some EThreshold /\ verdict (run [fA; fB] L2) = None.
 Proof. split; [exact ex_replayed_not_counted|exact ex_accept2]. Qed.
 
+(** regression witness: the stage as it was before the fix (no name comparison) counted the replayed
+    link towards the threshold of s1 and handed it on; the repaired stage drops exactly that link *)
+Theorem C08_legacy_refuted :
+  exists used good kid md lk,
+    verify_step_links_legacy x_sig_ok x_now_s L2 (main_keys_for_subkeys L2) st1 (loaded [fA; fB_replayed] L2 st1) [] []
+      = Ok (used, good) /\
+    length (dedup used) = 2 /\ In (kid, md) good /\ get_payload md = Ok (PLink lk) /\
+    l_name lk <> JStr (st_name st1) /\
+    (exists used', verify_step_links x_sig_ok x_now_s L2 (main_keys_for_subkeys L2) st1 (loaded [fA; fB_replayed] L2 st1) [] []
+                   = Ok (used', filter (fun kv => eqs (fst kv) [97; 97]%N) good) /\ length (dedup used') = 1).
+Proof. exact legacy_replay_refuted. Qed.
+
+Print Assumptions C08_legacy_refuted.
 Print Assumptions C08_bound.
 Print Assumptions C08_bound_verify.
 Print Assumptions C08_bound_at_use.
